@@ -13,7 +13,7 @@ KINDS = ["succeed", "fail-retry-left", "fail-exhausted", "recurring-succeed"]
 _ITERS = {}
 
 
-def _run_stop(S, kind, n_msgs, with_result, k, g, d=Fraction(5, 1000), tasks_limit=2, actor_steps=None, slow_ack=False):
+def _run_stop(S, kind, n_msgs, with_result, k, g, d=Fraction(5, 1000), tasks_limit=2, actor_steps=None, slow_ack=False, actor_tail=None):
     from repid import Job, Router, Worker
     from repid.converter import BasicConverter
 
@@ -49,6 +49,8 @@ def _run_stop(S, kind, n_msgs, with_result, k, g, d=Fraction(5, 1000), tasks_lim
                     out["fired_iter_actor"] = loop.iters
                 for _ in range(actor_steps):
                     await asyncio.sleep(0)
+                if actor_tail is not None:
+                    await asyncio.sleep(actor_tail)      # an actor that is nowhere near done when the stop request arrives
             if kind in (1, 2):
                 raise ValueError("x")
             return i
@@ -166,11 +168,13 @@ def h03_stop_steps(S, n_msgs=1, kinds=(0, 1, 2, 3), max_steps=12):
     """As H03-stop-mem, with the stop request placed relative to the end of the actor in loop steps (graceful period 0)."""
     kind = kinds[S.pick("actor_kind", len(kinds))]
     with_result = S.flag("store_result")
-    n = S.pick("actor_ends_this_many_loop_steps_after_the_stop_request", max_steps + 1)
+    n = S.pick("actor_ends_this_many_loop_steps_after_the_stop_request", max_steps + 2)
+    # last value: the actor would run for another 10 s - with a graceful period of 0 the run still returns within the slack
+    tail = 10 if n == max_steps + 1 else None
     slow_ack = with_result and kind == 0 and S.flag("message_broker_acks_slowly")
     S.tag("kind", KINDS[kind])
     try:
-        out = _run_stop(S, kind, n_msgs, with_result, k=None, g=0, actor_steps=n, slow_ack=slow_ack)
+        out = _run_stop(S, kind, n_msgs, with_result, k=None, g=0, actor_steps=0 if tail else n, slow_ack=slow_ack, actor_tail=tail)
     except Deadlock:
         S.check("run-returns", False, info="deadlock")
         return
@@ -432,11 +436,93 @@ def h03_redis_stop(S, max_step=140):
             S.check("returned-with-counter-unchanged", tried == 0 or i in runs, info=f"{mid}: already_tried={tried}")
 
 
+def h03_redis_twin(S, max_step=100):
+    """The same job id waiting at two priorities (re-enqueued with a higher one): both copies run side by side, one finishes,
+    the worker is told to stop while the other still runs - the unfinished copy is handed back to its own queue."""
+    from fakes import redis as fr
+    from repid import Connection, Job, Router, Worker
+    from repid.converter import BasicConverter
+    from repid.connections.redis.utils import mnc, qnc
+    from repid.data import PrioritiesT
+    from repid.data._key import RoutingKey
+
+    k = S.pick("stop_at_loop_step", max_step) + 1
+    long_is_high = S.flag("long_running_copy_is_the_high_priority_one")
+    short_fails = S.flag("short_copy_fails")
+    out = {}
+    runs = []
+    done = []
+
+    async def main(loop):
+        srv = fr.FakeServer()
+        br = fr.mk_broker(srv)
+        conn = Connection(br)
+        r = Router()
+
+        @r.actor(converter=BasicConverter)
+        async def job(long: bool):
+            runs.append(long)
+            await asyncio.sleep(30 if long else Fraction(2, 1000))
+            done.append(long)
+            if short_fails and not long:
+                raise ValueError("x")
+
+        prios = {True: PrioritiesT.HIGH if long_is_high else PrioritiesT.LOW, False: PrioritiesT.LOW if long_is_high else PrioritiesT.HIGH}
+        for long in (False, True):
+            await Job("job", args={"long": long}, id_="x1", priority=prios[long], _connection=conn).enqueue()
+        worker = Worker(routers=[r], handle_signals=[signal.SIGTERM], _connection=conn, graceful_shutdown_time=Fraction(2, 1000), tasks_limit=2)
+        fired = {}
+        base = loop.iters
+
+        def hook(lp):
+            if lp.iters == base + k and "t" not in fired:
+                if lp.fire_signal():
+                    fired["t"] = lp.time()
+            if lp.iters == base + 400 and "t" not in fired:
+                lp.fire_signal()
+
+        prev = loop.iter_hook
+        loop.iter_hook = hook
+        try:
+            await asyncio.wait_for(worker.run(), timeout=60)
+            out["returned"] = True
+        except asyncio.TimeoutError:
+            out["returned"] = False
+        loop.iter_hook = prev
+        out["fired"] = "t" in fired
+        await asyncio.sleep(Fraction(1, 2))
+        for long in (False, True):
+            key = RoutingKey(topic="job", queue="default", id_="x1", priority=prios[long].value)
+            lst = srv.kv.get(qnc("default", prios[long].value), [])
+            dead = srv.kv.get(qnc("default", prios[long].value, dead=True), [])
+            out[long] = {"waiting": list(lst).count(b"job:x1"), "dead": list(dead).count(b"job:x1"), "data": mnc(key) in srv.kv}
+        out["processing"] = dict(srv.kv.get("processing", {}))
+
+    run_async(main)
+    S.check("run-returns", out["returned"])
+    if not out["returned"] or not out["fired"]:
+        S.cover("signal-before-handler-registration")
+        return
+    S.cover("stopped")
+    S.check("nothing-stays-marked-in-flight", not out["processing"], info=str(out["processing"]))
+    if True in runs and True not in done:
+        S.cover("long-copy-interrupted")
+        S.check("interrupted-copy-is-back-in-its-own-queue", out[True]["waiting"] == 1 and out[True]["data"],
+                info=f"long-running copy after the stop: {out[True]} (short copy {'finished' if False in done else 'not finished'}: {out[False]})")
+    if True not in runs:
+        S.check("untouched-copy-still-waiting", out[True]["waiting"] == 1 and out[True]["data"], info=str(out[True]))
+    if False in done:
+        S.cover("short-copy-finished")
+        want = {"waiting": 0, "dead": 1 if short_fails else 0, "data": bool(short_fails)}
+        back = {"waiting": 1, "dead": 0, "data": True}      # the forced cancellation may land inside its report: handed back instead
+        S.check("finished-copy-is-disposed-or-handed-back", out[False] in (want, back), info=f"{out[False]} expected {want} or {back}")
+
+
 HARNESSES = [
     Harness(
         name="H03-stop-steps", scenario=h03_stop_steps, workers=16, budget_s=900,
         params={"quick": {"n_msgs": 1, "max_steps": 12}, "thorough": {"n_msgs": 2, "max_steps": 20}},
-        bounds={"stop request": "arrives while the actor runs; the actor ends 0..12 (quick) / 0..20 (thorough) loop steps later", "graceful period": "0",
+        bounds={"stop request": "arrives while the actor runs; the actor ends 0..12 (quick) / 0..20 (thorough) loop steps later, or would run for another 10 s", "graceful period": "0",
                 "actor": "succeeds / fails with a retry left / fails exhausted / recurring success", "result storing": "on/off"},
         functions=["_runner.py:_Runner._process_with_event", "_processor.py:_Processor.process", "_runner.py:_Runner.finish_gracefully"],
         covers=["stopped"],
@@ -495,3 +581,11 @@ HARNESSES += [
             covers=["stopped"], stubs=["fake Redis server"]),
 ]
 ASSUMPTIONS = ["virtual-time loop; loop step granularity for the crash point; Redis server is a fake"]
+HARNESSES.append(Harness(
+    name="H03-redis-twin-priorities", scenario=h03_redis_twin, workers=8,
+    params={"quick": {"max_step": 100}, "thorough": {"max_step": 160}},
+    bounds={"messages": "one job id waiting at HIGH and at LOW priority (same topic), one copy runs 2 ms (succeeds or fails), the other 30 s", "tasks_limit": "2",
+            "stop signal": "at every loop step 1..100 (quick) / 160 (thorough)", "graceful period": "2 ms"},
+    functions=["connections/redis/message_broker.py:RedisMessageBroker.reject", "connections/redis/message_broker.py:RedisMessageBroker.ack",
+               "_runner.py:_Runner._process_with_event"],
+    covers=["stopped", "long-copy-interrupted", "short-copy-finished"], stubs=["fake Redis server"]))
